@@ -128,9 +128,28 @@ Fixpoint first_some {A} (f : string -> option A) (ls : list string) : option A :
 Definition set_id (key : string) : string :=
   per_line (replace_lit_dots_rparen "Solution (" "Summary") key.
 
-(* set.Summary.FileNameSafeId: drop spaces; regexp `Solution\(.+\)` -> ""; "/" -> "_of_" *)
+(* regexp.MustCompile(lit + `[^()]*\)$`).ReplaceAllString(s, ""), [lit] a literal ending in "(" that cannot overlap itself:
+   a match runs from an occurrence of lit to the END of the text ([$] without the m flag), is closed by ")" and has no
+   parenthesis in between ([^()] also matches a line break).  An occurrence that qualifies has no "(" after it, hence is the
+   LAST occurrence of lit; if the last occurrence does not qualify none does. *)
+Fixpoint marker_body (s : string) : bool :=          (* s matches [^()]*\) entirely *)
+  match s with
+  | EmptyString => false
+  | String c EmptyString => Ascii.eqb c ")"
+  | String c s' => negb (Ascii.eqb c "(") && negb (Ascii.eqb c ")") && marker_body s'
+  end.
+
+Definition strip_final_marker (lit s : string) : string :=
+  match split_last lit s with
+  | Some (before, after) => if marker_body after then before else s
+  | None => s
+  end.
+
+(* set.Summary.FileNameSafeId (after C19c-5): drop spaces; regexp `Solution\([^()]*\)$` -> ""; "/" -> "_of_".
+   [Before C19c-5 the regexp was `Solution\(.+\)`: leftmost "Solution(" up to the last ")" of the line, so a scenario name
+   containing "Solution (" lost its run marker "(r/R)" and all runs wrote the same summary file.] *)
 Definition file_stem (key : string) : string :=
-  replace_char "/"%char "_of_" (per_line (replace_lit_dots_rparen "Solution(" "") (remove_char " "%char key)).
+  replace_char "/"%char "_of_" (strip_final_marker "Solution(" (remove_char " "%char key)).
 
 (* json.deriveSetNameFor: regexp <group: dot-star><space>Solution<dot-star> FindStringSubmatch(key)[1].
    Leftmost match = the first line containing " Solution"; greedy group = up to the LAST " Solution" of that line.
@@ -324,7 +343,7 @@ Definition src_iteration_regex : string := "\d+/\d+".
 Definition src_prettified_regex : string := "/".
 Definition src_set_id_regex : string := "Solution \(.+\)".              (* set.Summary.Id *)
 Definition src_set_id_replacement : string := "Summary".
-Definition src_file_stem_regex : string := "Solution\(.+\)".            (* set.Summary.FileNameSafeId *)
+Definition src_file_stem_regex : string := "Solution\([^()]*\)$".      (* set.Summary.FileNameSafeId *)
 Definition src_file_stem_lits : list string := [" "; ""; src_file_stem_regex; ""; "/"; "_of_"].
 Definition src_json_name_regex : string := "(.*) Solution.*".           (* json.nameMatcher *)
 Definition src_json_name_index_exprs : list string := ["nameMatcher.FindStringSubmatch(_)[1]"].
@@ -351,3 +370,4 @@ Fixpoint escape_parens (s : string) : string :=
   | String c s' => if Ascii.eqb c "("%char then String "\" (String "(" (escape_parens s')) else String c (escape_parens s')
   end.
 Definition regex_lit_dots_rparen (lit : string) : string := escape_parens lit ++ ".+\)".
+Definition regex_lit_final_marker (lit : string) : string := escape_parens lit ++ "[^()]*\)$".
